@@ -733,6 +733,31 @@ func runC14Sequential(t *fw.T) {
 				t.Violate("debug-string-differs-from-compact", "program", "debug.ToString(program) differs from the compact compilation: "+firstDiff(c, d), nil)
 				bad = true
 			}
+			// ... of a node: every statement of the program (and of its top-level blocks / function bodies) on its own
+			var stmts []ast.Statement
+			for _, s := range prog.Statements {
+				stmts = append(stmts, s)
+				switch x := s.(type) {
+				case *ast.BlockStatement:
+					stmts = append(stmts, x.Statements...)
+				case *ast.FunctionDeclaration:
+					if x.Body != nil {
+						stmts = append(stmts, x.Body.Statements...)
+					}
+				}
+			}
+			for _, s := range stmts {
+				if walkNil(s) {
+					continue
+				}
+				d, c := debug.ToString(s), CfgCompact.Compile(&ast.Program{Statements: []ast.Statement{s}}).Code
+				t.Count("debug_strings_of_single_statements_compared", 1)
+				if d != c {
+					t.Violate("debug-string-differs-from-compact", "statement", "debug.ToString(statement) differs from the compact compilation of that statement: "+firstDiff(c, d), nil)
+					bad = true
+					break
+				}
+			}
 		})
 		if bad {
 			return
